@@ -181,7 +181,9 @@ def judge_c02(rec):
             out.append(V("C02", "violated", "spurious-exception", f"{rec.exc_type}: {rec.exc_msg}", cell=cell2, **sig))
         else:
             try:
-                want, wd = denote(rec.pre, tg, {})
+                # Fock factors at the implementation's current (post-call) cutoff
+                Dp = {n: d for n, d in impl_dims(rec.post).items() if d}
+                want, wd = denote(rec.pre, tg, Dp)
                 got = trace_value_dm(rec.ret, wd, rec.world.kind(tg[0]) if len(tg) == 1 else None)
                 e = ref.maxdiff(got, want)
                 if e > S.EXACT_TOL:
